@@ -791,6 +791,10 @@ class Emitter:
 class FuncEmitter:
     _discard_id = None
 
+    def result_used(self, n):
+        """False when n is the expression of an expression statement (its value is discarded)"""
+        return not (n is not None and n.get('id') == self._discard_id)
+
     def assign(self, n, l, r):
         """C++ assignment expression l = r (an lvalue in C++); l is evaluated exactly once"""
         if n is not None and n.get('id') == self._discard_id:
